@@ -61,6 +61,8 @@ def atom_str(system, a, marker="'"):
 
 def coef_str(c):
     c = Fraction(c)
+    if c != 0 and abs(c) < Fraction(1, 10 ** 9):
+        return repr(float(c))            # very small coefficients are written as float literals in scientific notation (SI units)
     if c.denominator == 1:
         return str(c.numerator)
     return "%d/%d" % (c.numerator, c.denominator)
@@ -270,8 +272,10 @@ def cfdeps(system):
 CONST_FUNS = ["e", "log(2)", "sqrt(2)", "exp(-1)", "sqrt(3)/2", "E**2"]      # symbol-free constants that are not number literals
 
 
-def rand_coef(rng, nparams, allow_par=True, nfuns=0):
+def rand_coef(rng, nparams, allow_par=True, nfuns=0, tiny=False):
     c = Fraction(rng.choice(DYADIC))
+    if tiny and rng.random() < 0.12:
+        c *= Fraction(1, 10 ** rng.choice([16, 18, 21]))
     pows = []
     if nfuns and rng.random() < 0.4:
         pows.append([["f", rng.randrange(nfuns)], 1])
@@ -320,23 +324,23 @@ def gen_system(rng, max_entries=4, kinds=("lin", "lin", "off", "nonlin", "time",
         # own linear part
         for d in range(e["order"]):
             if rng.random() < 0.8:
-                c, pw = rand_coef(rng, nparams, nfuns=_nf)
+                c, pw = rand_coef(rng, nparams, nfuns=_nf, tiny=const_funs)
                 terms.append({"c": str(c), "pows": pw + [[["v", offs[i] + d], 1]]})
         # couplings (linear in other variables)
         if m > 1 and (kind == "coupled" or rng.random() < 0.45):
             for _ in range(rng.randint(1, 2)):
                 j = rng.choice([k for k in range(m) if k != i])
                 gj = offs[j] + rng.randrange(entries[j]["order"])
-                c, pw = rand_coef(rng, nparams, nfuns=_nf)
+                c, pw = rand_coef(rng, nparams, nfuns=_nf, tiny=const_funs)
                 terms.append({"c": str(c), "pows": pw + [[["v", gj], 1]]})
         if kind == "off" and e["order"] == 1 or rng.random() < 0.12:
-            c, pw = rand_coef(rng, nparams, nfuns=_nf)
+            c, pw = rand_coef(rng, nparams, nfuns=_nf, tiny=const_funs)
             terms.append({"c": str(c), "pows": pw})
         if kind == "nonlin":
             for _ in range(rng.randint(1, 2)):
                 g1 = rng.randrange(n)
                 g2 = rng.randrange(n)
-                c, pw = rand_coef(rng, nparams, nfuns=_nf)
+                c, pw = rand_coef(rng, nparams, nfuns=_nf, tiny=const_funs)
                 q = rng.random()
                 if q < 0.4:
                     vp = [[["v", g1], 2]] if g1 == g2 else [[["v", g1], 1], [["v", g2], 1]]
@@ -348,7 +352,7 @@ def gen_system(rng, max_entries=4, kinds=("lin", "lin", "off", "nonlin", "time",
                     vp = [[["v", g1], 2], [["v", g2], -1]] if g1 != g2 else [[["v", g1], 3]]
                 terms.append({"c": str(c), "pows": pw + vp})
         if kind == "time":
-            c, pw = rand_coef(rng, nparams, nfuns=_nf)
+            c, pw = rand_coef(rng, nparams, nfuns=_nf, tiny=const_funs)
             q = rng.random()
             if q < 0.4:
                 terms.append({"c": str(c), "pows": pw + [[["t"], 1], [["v", offs[i]], 1]]})
